@@ -7,7 +7,7 @@ that the driver precompile can probe and write them through the facade.
 """
 OP = {"STOP": 0x00, "ADD": 0x01, "ISZERO": 0x15, "CALLDATALOAD": 0x35, "CALLDATASIZE": 0x36, "CALLDATACOPY": 0x37,
       "CODECOPY": 0x39, "EXTCODESIZE": 0x3b, "EXTCODEHASH": 0x3f, "BALANCE": 0x31, "SLOAD": 0x54, "SSTORE": 0x55,
-      "GAS": 0x5a, "DUP6": 0x85, "CREATE": 0xf0, "CALL": 0xf1, "RETURN": 0xf3, "DELEGATECALL": 0xf4, "CREATE2": 0xf5,
+      "GAS": 0x5a, "DUP6": 0x85, "CREATE": 0xf0, "CALL": 0xf1, "CALLCODE": 0xf2, "INVALID": 0xfe, "MSTORE": 0x52, "JUMP": 0x56, "JUMPI": 0x57, "JUMPDEST": 0x5b, "EQ": 0x14, "SELFBALANCE": 0x47, "DUP1": 0x80, "RETURN": 0xf3, "DELEGATECALL": 0xf4, "CREATE2": 0xf5,
       "STATICCALL": 0xfa, "REVERT": 0xfd, "SELFDESTRUCT": 0xff, "POP": 0x50}
 E18 = 10 ** 18
 
@@ -66,11 +66,11 @@ def child_init(runtime=None, slot=1, value=7):
     return asm(value, slot, "SSTORE", len(rt), 17, 0, "CODECOPY", len(rt), 0, "RETURN") + rt
 
 
-def call_code(target, kind="CALL", then_revert=False, store_flag=True):
-    args = [0, 0, 0, 0] + ([0] if kind == "CALL" else [])
+def call_code(target, kind="CALL", then_revert=False, store_flag=True, flag_slot=0):
+    args = [0, 0, 0, 0] + ([0] if kind in ("CALL", "CALLCODE") else [])
     c = asm(*args, ("addr", target), "GAS", kind)
     if store_flag:
-        c += asm(0, "SSTORE")
+        c += asm(flag_slot, "SSTORE")
     c += asm(0, 0, "REVERT") if then_revert else asm("STOP")
     return c
 
@@ -108,8 +108,10 @@ class B:
             self.s["policy"] = policy
         self.nonce = {}
 
-    def account(self, name, code=None, storage=None, balance=0, nonce=1, delegate=None):
+    def account(self, name, code=None, storage=None, balance=0, nonce=1, delegate=None, at=None):
         a = {"name": name, "balance": str(balance), "nonce": nonce}
+        if at:
+            a["at"] = at
         if code is not None:
             a["code"] = hexs(code)
         if delegate:
@@ -164,17 +166,21 @@ def c08_family(specs=("SHANGHAI", "CANCUN", "PRAGUE")):
     for spec in specs:
         # destroy - probe (- recreate - probe) on a pre-existing contract with storage
         b = B(f"d_destroy_probe_{spec}", spec)
-        b.account("D", destroy_code(), {0: 21, 3: 23}, balance=9)
+        b.account("D", destroy_code(), {0: 21, 3: 23, 5: 25}, balance=9)
         b.account("Q", None, {}, nonce=1)
         b.loc("d0", "D", 0, 21)
         b.loc("d3", "D", 3, 23)
+        b.loc("d5", "D", 5, 25)              # read for the first time only after the re-creation
         b.loc("q0", "Q", 0)
         b.loc("q1", "Q", 1)
         p1 = b.prog(); p2 = b.prog(("r", "d0", 1), ("w", "q0", 1, 1)); p3 = b.prog(("r", "d3", 1), ("w", "q1", 1, 1))
         b.tx("e0", "D")
         b.tx("e1", prog=p2)
         b.tx("e2", prog=p3)
-        b.tx("e3", "D", value=5)            # value to the (possibly deleted) address
+        b.tx("e3", "D", value=5)            # value to the (possibly deleted) address: it exists again, storage stays empty
+        b.loc("q2", "Q", 2)
+        p4 = b.prog(); p4 = b.prog(("r", "d5", 1), ("r", "d0", 2), ("w", "q2", 1, 1))
+        b.tx("e0", prog=p4)                 # probe after the re-creation
         b.watch("rcv")
         out.append(b.done())
         # create2 child with constructor storage - probe - destroy - probe - recreate - probe
@@ -238,6 +244,21 @@ def c09_family():
         b.tx("e2", created, word(6) + word(78))
         b.watch(created, 5); b.watch(created, 6); b.watch(created, 2)
         out.append(b.done())
+    # old forks (a created contract keeps nonce 0): deployment onto a pre-funded, code-less address with zero value -
+    # only the code of the account changes - then calls and code inspection
+    for spec in ("HOMESTEAD", "FRONTIER", "SPURIOUS_DRAGON", "BERLIN"):
+        b = B(f"k_deploy_onto_prefunded_{spec}", spec)
+        created = "c1:e0:1"
+        b.account("P", None, {}, balance=7, nonce=0, at=created)
+        b.account("X", probe_code(b"\0" * 20))   # placeholder, replaced below
+        b.tx("e0", None, child_init(runtime=store_code(), slot=2, value=9), create=True, gas_limit=300_000)
+        b.tx("e1", "P", word(5) + word(77), gas_limit=100_000)
+        b.tx("e2", "P", word(6) + word(78), gas_limit=100_000)
+        b.tx("e3", "P", word(5) + word(79), gas_limit=100_000)
+        b.watch("P", 5); b.watch("P", 6); b.watch("P", 2)
+        s_ = b.done()
+        s_["accounts"] = [a for a in s_["accounts"] if a["name"] != "X"]
+        out.append(s_)
     # EIP-7702: set, call, re-point, call, clear, call, set again, call - plus code inspection
     for spec in ("PRAGUE", "OSAKA"):
         b = B(f"k_delegate_set_repoint_clear_{spec}", spec)
@@ -352,45 +373,43 @@ def c13_family():
 
 # ------------------------------------------------------------------------------------------------
 # Scenarios generated from the cases TLC enumerates from spec/rules/Delegated.tla
-def c12_from_cases(cases):
-    by = {(c["shape"], c["create2"], c["guard"], c["prague"]): c for c in cases}
+def c12_from_cases(cases, forks=None):
+    """One block per rule case (call path x CREATE/CREATE2 x guard x fork). Where the rule says the
+    creating frame halts, the oracle is stock revm on the block whose creator code is INVALID; everywhere
+    else it is stock revm on the block itself."""
     out = []
-    for prague in (True, False):
-        spec = "PRAGUE" if prague else "CANCUN"
-        for guard in (True, False):
-            for c2 in (False, True):
-                g = lambda shape: by[(shape, c2, guard, prague)]
-                b = B(f"g_shapes_{spec}_{'on' if guard else 'off'}_{'create2' if c2 else 'create'}", spec,
-                      policy={"create": guard, "reserve": False})
-                t = b.account("T", creator_code(c2))
-                b.account("U", None, {}, balance=E18, nonce=0, delegate="T")
-                u = addr_raw(b.index("U"))
-                b.account("C", call_code(u))
-                b.account("DC", call_code(t, kind="DELEGATECALL"))
-                b.account("SC", call_code(u, kind="STATICCALL"))
-                b.tx("e0", "U")
-                b.tx("e1", "C")
-                b.tx("e2", "DC")
-                b.tx("e3", "T")
-                b.tx("e0", "SC")
-                b.tx("e1", None, b"", create=True)
-                b.tx("U", "e2", value=1, gas_limit=21_000, nonce=0)
-                for n in ("U", "T", "C", "DC", "SC"):
-                    b.watch(n, 0)
-                s = b.done()
-                s["prop"] = "C12"
-                if prague and guard:
-                    # stock revm is no oracle here: the rule model is
-                    adv = sum(1 for sh in ("top_delegated", "nested_delegated") if g(sh)["nonce_advanced"])
-                    own_ok = adv == 0
-                    s["oracle"] = "policy"
-                    s["expect"] = {
-                        "kinds": {"0": g("top_delegated")["kind"], "1": "success", "2": "success", "3": "success",
-                                  "4": "success", "5": "success", "6": "success" if own_ok else "skipped"},
-                        "final": [["C", 0, g("nested_delegated")["flag"]], ["SC", 0, g("static_into_delegated")["flag"]],
-                                  ["U", "nonce", 1 if own_ok else adv], ["U", 0, 0]],
-                    }
-                out.append(s)
+    for c in cases:
+        if forks and c["fork"] not in forks:
+            continue
+        path, c2, guard, fork = c["path"], c["create2"], c["guard"], c["fork"]
+        tag = "_".join(path) + ("_create2" if c2 else "_create") + ("_on_" if guard else "_off_") + fork
+        b = B("g_" + tag, fork, policy={"create": guard, "reserve": False})
+        t = b.account("T", creator_code(c2))
+        u2 = b.account("U2", None, {}, balance=E18, nonce=0, delegate="T")
+        end = {"T": t, "U2": u2}
+        hop = call_code(end[path[2]], kind=path[1], flag_slot=1) if len(path) == 3 else asm("STOP")
+        b.account("F", hop)
+        b.account("U", None, {}, balance=E18, nonce=0, delegate="F")
+        if path == ["tx"]:
+            b.tx("e0", None, creator_code(c2), create=True)
+        else:
+            b.tx("e0", path[0])
+        ctx_acct = c["context"]
+        if ctx_acct in ("U", "U2"):
+            b.tx(ctx_acct, "e2", value=1, gas_limit=21_000, nonce=0)   # the delegated account's own later transaction
+        b.tx("e1", "e2", value=1, gas_limit=21_000)
+        for n in ("U", "U2", "F", "T"):
+            b.watch(n, 0); b.watch(n, 1)
+        s = b.done()
+        s["prop"] = "C12"
+        s["case"] = c
+        if c["halts"]:
+            s["oracle"] = "policy"
+            s["oracle_alt"] = {"T": hexs(asm("INVALID"))}
+            if ctx_acct in ("U", "U2"):
+                # the consequence the property names: the account's own later transaction stays valid
+                s["expect"] = {"kinds": {"1": "success"}, "final": [[ctx_acct, "nonce", 1]]}
+        out.append(s)
     return out
 
 
@@ -416,3 +435,108 @@ def c13_from_cases(cases):
         s["case"] = c
         out.append(s)
     return out
+
+
+# ------------------------------------------------------------------------------------------------
+# Reserve cases (spec/rules/Reserve.tla): per-case generated straight-line bytecode
+def asm_l(*items):
+    """asm with labels: ("label", n) emits JUMPDEST, ("to", n) pushes the label's offset (PUSH2)."""
+    def size(it):
+        if isinstance(it, tuple) and it[0] == "label":
+            return 1
+        if isinstance(it, tuple) and it[0] == "to":
+            return 3
+        return len(asm(it))
+    pos, off = {}, 0
+    for it in items:
+        if isinstance(it, tuple) and it[0] == "label":
+            pos[it[1]] = off
+        off += size(it)
+    out = bytearray()
+    for it in items:
+        if isinstance(it, tuple) and it[0] == "label":
+            out.append(OP["JUMPDEST"])
+        elif isinstance(it, tuple) and it[0] == "to":
+            out += bytes([0x61]) + pos[it[1]].to_bytes(2, "big")
+        else:
+            out += asm(it)
+    return bytes(out)
+
+
+def push32(v):
+    return bytes([0x7f]) + (v if isinstance(v, bytes) else v.to_bytes(32, "big")).rjust(32, b"\0")
+
+
+MODE = {"send": 0, "send_rev": 1, "destroy": 2, "create": 3, "credit": 4}
+
+
+def actor_code():
+    """Code every delegated account of a reserve case points to: calldata = (amount, destination, mode)."""
+    return asm_l(0x40, "CALLDATALOAD",
+                 "DUP1", 2, "EQ", ("to", "destroy"), "JUMPI",
+                 "DUP1", 3, "EQ", ("to", "create"), "JUMPI",
+                 "DUP1", 4, "EQ", ("to", "stop"), "JUMPI",
+                 0, 0, 0, 0, 0, "CALLDATALOAD", 0x20, "CALLDATALOAD", "GAS", "CALL", "POP",
+                 1, "EQ", ("to", "rev"), "JUMPI",
+                 "STOP",
+                 ("label", "rev"), 0, 0, "REVERT",
+                 ("label", "destroy"), 0x20, "CALLDATALOAD", "SELFDESTRUCT",
+                 ("label", "create"), 0, 0, 0, "CALLDATALOAD", "CREATE", "POP", "STOP",
+                 ("label", "stop"), "STOP")
+
+
+def fanout_code(script, addr_of):
+    """Straight-line fan-out; a storage flag makes a re-entrant call (a debit paid to K itself) a no-op."""
+    items = [0, "SLOAD", ("to", "stop"), "JUMPI", 1, 0, "SSTORE"]
+    for st in script:
+        dest = addr_of.get(st["dest"], b"")
+        value = st["amt"] if st["op"] == "credit" else 0
+        items += [push32(st["amt"]), 0, "MSTORE", push32(dest), 0x20, "MSTORE", push32(MODE[st["op"]]), 0x40, "MSTORE",
+                  0, 0, 0x60, 0, push32(value), ("addr", addr_of[st["x"]]), "GAS", "CALL", "POP"]
+    return asm_l(*items, ("label", "stop"), "STOP")
+
+
+def _unused_fanout(script, addr_of):
+    c = b""
+    for st in script:
+        dest = addr_of.get(st["dest"], b"")
+        value = st["amt"] if st["op"] == "credit" else 0
+        c += asm(push32(st["amt"]), 0, "MSTORE", push32(dest), 0x20, "MSTORE", push32(MODE[st["op"]]), 0x40, "MSTORE",
+                 0, 0, 0x60, 0, push32(value), ("addr", addr_of[st["x"]]), "GAS", "CALL", "POP")
+    return c + asm("STOP")
+
+
+def c13_from_reserve_cases(outs):
+    res = []
+    for k, o in enumerate(outs):
+        c = o["case"]
+        tag = "_".join(f"{st['op']}{st['x']}{st['amt'] // 21001}{st['dest'][0]}" for st in c["script"])
+        b = B(f"rs{k}_{c['sender']}_v{c['v'] // 21001}_a{c['balA'] // 21001}_l{c['laterA']}{c['laterB']}_{tag}_{'on' if c['reserve'] else 'off'}",
+              "PRAGUE", policy={"create": False, "reserve": c["reserve"]})
+        b.account("ACT", actor_code())
+        a = b.account("A", None, {}, balance=c["balA"], nonce=0, delegate="ACT")
+        bb = b.account("B", None, {}, balance=c["balB"], nonce=0, delegate="ACT")
+        kk = addr_raw(3)
+        b.account("K", fanout_code(c["script"], {"A": a, "B": bb, "K": kk, "R": RCV}), {}, balance=5 * 21001)
+        if c["sender"] == "A":
+            b.tx("A", "K", value=c["v"], gas_limit=900_000, gas_price=0, nonce=0)
+        else:
+            b.tx("e0", "K", value=c["v"], gas_limit=900_000)
+        kinds = {"0": o["kind0"]}
+        if c["laterA"]:
+            kinds[str(len(b.s["txs"]))] = o["kindA"].split("_")[0]
+            b.tx("A", "e2", value=1, gas_limit=21_000, nonce=1 if c["sender"] == "A" else 0)
+        if c["laterB"]:
+            kinds[str(len(b.s["txs"]))] = o["kindB"].split("_")[0]
+            b.tx("B", "e2", value=1, gas_limit=21_000, nonce=0)
+        b.tx("e1", "e2", value=1, gas_limit=21_000)
+        b.watch("A"); b.watch("B"); b.watch("K"); b.watch("rcv")
+        s = b.done()
+        s["prop"] = "C13"
+        s["case"] = c
+        s["expect"] = {"kinds": kinds, "final": [["A", "balance", o["balA"]], ["B", "balance", o["balB"]],
+                                                 ["A", "nonce", o["nonceA"]], ["B", "nonce", o["nonceB"]]]}
+        if c["reserve"] and o["violates"]:
+            s["oracle"] = "policy"       # stock revm is no oracle for a transaction the policy reverts
+        res.append(s)
+    return res
